@@ -152,6 +152,7 @@ func loadProg(dir string, goos, goarch string) (*Prog, error) {
 		}
 	}
 	typeHasNoUnwrapIs = func(s string) bool { return noUnwrap[s] }
+	p.installSentinelOracle()
 	return p, nil
 }
 
@@ -249,4 +250,105 @@ func (p *Prog) directCallees(fs *FuncSrc) []string {
 		return true
 	})
 	return out
+}
+
+// installSentinelOracle: errors.Is(x, S) is false for an UNEXPORTED package-level
+// sentinel S when x is the result of an external function, or of an in-module
+// function whose static call tree never mentions S (nobody else can name S),
+// also through fmt.Errorf/errors.Join wrapping of such values.
+func (p *Prog) installSentinelOracle() {
+	mentions := map[string]map[string]bool{} // function -> globals mentioned in its static call tree
+	private := map[string]bool{}             // sentinel -> passes the who-may-reference rule
+	var tree func(fs *FuncSrc, seen map[*FuncSrc]bool, out map[string]bool)
+	tree = func(fs *FuncSrc, seen map[*FuncSrc]bool, out map[string]bool) {
+		if seen[fs] {
+			return
+		}
+		seen[fs] = true
+		info := fs.Pkg.TypesInfo
+		ast.Inspect(fs.Decl.Body, func(n ast.Node) bool {
+			switch x := n.(type) {
+			case *ast.Ident:
+				if v, ok := info.Uses[x].(*types.Var); ok && isPkgLevel(v) {
+					out[p.abbrev(v.Pkg().Path())+"."+v.Name()] = true
+				}
+				if f, ok := info.Uses[x].(*types.Func); ok {
+					if cf := p.Funcs[f.Origin()]; cf != nil {
+						tree(cf, seen, out)
+					}
+				}
+			}
+			return true
+		})
+	}
+	lookup := func(name string) map[string]bool {
+		if m, ok := mentions[name]; ok {
+			return m
+		}
+		m := map[string]bool{}
+		if fs := p.fn(name); fs != nil {
+			tree(fs, map[*FuncSrc]bool{}, m)
+		} else {
+			m["?"] = true
+		}
+		mentions[name] = m
+		return m
+	}
+	var cannot func(x *Term, g string, depth int) bool
+	cannot = func(x *Term, g string, depth int) bool {
+		if x == nil || depth > 6 {
+			return false
+		}
+		i := strings.LastIndex(g, ".")
+		if i < 0 || i+1 >= len(g) || !(g[i+1] >= 'a' && g[i+1] <= 'z') {
+			return false // exported or odd: anybody may return it
+		}
+		// ... and it must not escape: referenced only as a return operand, as the target of
+		// errors.Is, or through a local that is only returned or tested
+		priv, known := private[g]
+		if !known {
+			_, bad := sentinelUsesP(p, g)
+			priv = len(bad) == 0
+			private[g] = priv
+		}
+		if !priv {
+			return false
+		}
+		switch x.Op {
+		case "res":
+			return cannot(x.Args[0], g, depth+1)
+		case "call":
+			switch {
+			case x.Name == "fmt.Errorf" || x.Name == "errors.Join":
+				for _, a := range x.Args {
+					if a.isConst() {
+						continue
+					}
+					if a.Op == "spread" || !cannot(a, g, depth+1) {
+						// non-error operands (strings, numbers) are harmless, but we cannot tell them apart here
+						if a.Op == "call" || a.Op == "res" || a.Op == "global" || a.Op == "opaque" || a.Op == "spread" {
+							return false
+						}
+					}
+				}
+				return true
+			case x.Name == "dyn" || x.Name == "chanrecv":
+				return false
+			case strings.HasPrefix(x.Name, "ncg/") || strings.HasPrefix(x.Name, "(ncg/") || strings.HasPrefix(x.Name, "(*ncg/"):
+				fs := p.fn(x.Name)
+				if fs == nil {
+					return false // interface method or unknown: the implementation is not ours to inspect
+				}
+				m := lookup(x.Name)
+				return !m["?"] && !m[g]
+			default:
+				return true // external code cannot name an unexported variable of this module
+			}
+		case "struct", "addr":
+			_, ok := dynType(x)
+			return ok
+		}
+		return false
+	}
+	cannotBeSentinel = func(x *Term, g string) bool { return cannot(x, g, 0) }
 }
